@@ -358,6 +358,9 @@ class PDDLWriter:
             self.pddl_keywords |= TEMPORAL_PDDL_KEYWORDS
         if isinstance(self.problem, ContingentProblem):
             self.pddl_keywords |= CONTINGENT_PDDL_KEYWORDS
+        if self.problem_kind.has_actions_cost() or self.problem_kind.has_plan_length():
+            # the writer declares and uses its own `total-cost` function for them
+            self.pddl_keywords = self.pddl_keywords | {"total-cost"}
 
     def _write_parameters(self, out, a):
         for ap in a.parameters:
